@@ -11,6 +11,7 @@ from props import c03
 
 ID = "C13"
 LEAN_MODULES = ["CatiiProps.C13"]
+USES_TRANSLATOR = ['slices1d']   # Gen/SlicesGen.lean: iindex.slices1d as the list of yielded pairs (tools/translate_slices.py)
 RULE = ("dimension lists with at least one two- or three-axis index, extra extents 1..4 chosen pairwise different where "
         "possible (exposes transposed axes), several multi-axis dims at once, scaffolds made of unit axes only ((N,1), (N,1,1), two such dims), some extra-axis positions entirely at the common value (a slice without entries); every aggregate of C03 on both cube types: "
         "result.shape == extra extents (dimension order, then axis order) + category extents (+ fact columns) and every "
